@@ -91,6 +91,12 @@ func runC05(c *Ctx) error {
 	dirPath := filepath.Join(tmp, "d")
 	_ = os.WriteFile(filePath, []byte("x"), 0o644)
 	_ = os.Mkdir(dirPath, 0o755)
+	// links: the rules follow them (os.Stat); a dangling link is a missing path
+	linkToDir, linkToFile, dangling, missing := filepath.Join(tmp, "ld"), filepath.Join(tmp, "lf"), filepath.Join(tmp, "lx"), filepath.Join(tmp, "nope")
+	_ = os.Symlink(dirPath, linkToDir)
+	_ = os.Symlink(filePath, linkToFile)
+	_ = os.Symlink(filepath.Join(tmp, "gone"), dangling)
+	statPaths := []string{filePath, dirPath, linkToDir, linkToFile, dangling, missing, filePath + "/", dirPath + "/"}
 
 	emit := func(rule, text string, v interface{}, fspec string, orc *oracleSet, cell string) {
 		if reflect.ValueOf(v).IsZero() { // zero values are skipped by every rule: outside C05's domain
@@ -101,7 +107,7 @@ func runC05(c *Ctx) error {
 		call := &walkCall{Orc: orc}
 		full := text + "|" + mk
 		extra := ""
-		if sv, ok := v.(string); ok && strings.Contains(text, "'") && len(sv) < 90 && r.Chance(60) {
+		if sv, ok := v.(string); ok && strings.Contains(text, "'") && strings.Count(text, "'")%2 == 0 && len(sv) < 90 && r.Chance(60) {
 			// a quoted rule followed by a second rule on the same value: the second one (violated by construction:
 			// no string here has 100 characters) must still be reported, whatever the first one did to get its verdict
 			marker++
@@ -150,6 +156,14 @@ func runC05(c *Ctx) error {
 		emit("phone", "phone", s, "FPhone", nil, "directed:phone:"+verdictCell("phone", s, "phone"))
 		emit("email", "email", s, "FEmail", nil, "directed:email:"+verdictCell("email", s, "email"))
 		emit("idcard", "idcard", s, "FIdCard", nil, "directed:idcard:"+verdictCell("idcard", s, "idcard"))
+	}
+	for _, d := range []string{"0.00001", "1e-05", "0.0000001", "1e-07", "1000000000000000000000", "1e+21", "123456789012345680000000", "0.000012345"} {
+		f64, _ := strconv.ParseFloat(d, 64)
+		f32v, _ := strconv.ParseFloat(d, 32)
+		for _, v := range []interface{}{f64, float32(f32v)} {
+			text := valid.GenValidKV("in", d+"/7")
+			emit("in", text, v, "(FIn "+gal.StrList([]string{d, "7"})+")", nil, "directed:in-magnitude:"+verdictCell("in", v, text))
+		}
 	}
 	for _, d := range decimalOpts {
 		f64, _ := strconv.ParseFloat(d, 64)
@@ -432,12 +446,20 @@ func runC05(c *Ctx) error {
 		// ---- file / dir
 		{
 			rule := r.Pick([]string{"file", "dir"})
-			p := r.Pick([]string{filePath, dirPath})
+			p := statPaths[i%len(statPaths)]
 			orc := newOracles()
-			isDir := p == dirPath
-			orc.stat[p] = &isDir
-			ok := (rule == "dir") == isDir
-			emit(rule, rule, p, "(FOracle "+gal.Bool(ok)+")", orc, fmt.Sprintf("%s:%v", rule, isDir))
+			fi, serr := os.Stat(p) // the harness's own direct call of the standard library
+			ok := false
+			kindOf := "missing"
+			if serr == nil {
+				isDir := fi.IsDir()
+				orc.stat[p] = &isDir
+				ok = (rule == "dir") == isDir
+				kindOf = fmt.Sprint(isDir)
+			} else {
+				orc.stat[p] = nil
+			}
+			emit(rule, rule, p, "(FOracle "+gal.Bool(ok)+")", orc, fmt.Sprintf("%s:%s:%d", rule, kindOf, i%len(statPaths)))
 		}
 	}
 
